@@ -457,8 +457,8 @@ class ThreadPool(object):
         :param timeout: Maximum time to wait (in seconds)
         :return: True if the queue has been emptied, else False
         """
-        if self._queue.empty():
-            # Nothing to wait for...
+        if not self._queue.unfinished_tasks:
+            # Nothing to wait for: no task is queued nor being executed
             return True
         elif timeout is None:
             # Use the original join
